@@ -437,6 +437,8 @@ var c09Seeds = []string{
 	"$$ ~> |**|{\"a\": $$}|", "items ~> |$|{\"self\": $}|", "$string(items ~> |$|{\"self\": $}|)", "($x := $ ~> |$|{\"self\": $}|; $count($x.**))", "$ ~> |$|{\"p\": a[10], \"q\": $^(k)}, \"k\"|",
 	"$ ~> |items|{\"sib\": $$.items}|", "($c := $ ~> |items[0]|{\"o\": $$.items[1]}|; $c ~> |items[1]|{\"o\": $$.items[0]}|) ~> $string()", "$ ~> |**|{\"up\": $$}| ~> $string() ~> $length()", "(items ~> |$|{\"self\": [$, [$]]}|).self", "$ ~> |items|{\"items\": 1}|", "$ ~> |items|{}, \"id\"|.items.id", "{\"a\": 1, \"a\": 2}", "{1: 2}", "{nothing: 2}",
 	"items{k: s}", "items{nothing: s}", "items{\"x\": s}{\"y\": 1}", "a[b][c][d]", "a.b.c[0][1][2]", "**.**.**", "*.*.*", "$$.$$.$$", "[[[[[[1]]]]]]", "[1..3][[1..2]]", "[1,2,3][[0,\"a\"]]",
+	"a ~> $substring(?, ?)", "$ ~> $pad(?, ?)", "n ~> function($a,$b,$c){[$a,$b,$c]}(?, 1, ?)", "a ~> $substring(?, 1, ?)", "(a ~> $substring(?, ?))(1)", "n ~> $power(?, ?)",
+	"a ~> $contains(?, ?)", "3 ~> function($a,$b){$a}(?, ?)", "a ~> $substringBefore(?, ?) ~> $string()", "items ~> $map(?, ?)", "1 ~> $append(?, ?)(2)",
 	"(function($f){$f($f)})(function($f){1})", "$map([1,2,3], $map)", "$map([1,2,3], $reduce)", "$reduce([1,2,3], $append(?, ?))", "($f := $f; $f)", "(($x := 1) + $x)",
 	// boundary corpus: callbacks declaring more parameters than the built-in passes, ranges whose span overflows int64,
 	// additive overflow (bare and nested), extreme operands
